@@ -7,6 +7,8 @@ clock) and writes a report {counters, violations, samples, distinct, engine_erro
 Callbacks use order-fixed IEEE arithmetic identical to the Rust mirror.
 """
 import json
+import math
+import operator
 import os
 import struct
 import sys
@@ -247,7 +249,37 @@ class EnvD(Env):
         return 0.0 if all(ev(p, x) for p in self.sc["goal"]["preds"]) else 1.0
 
 
-def run_scenario(sc, fault=None, as_false=False, with_distance=False):
+
+# Callables that fail WITHOUT any Python frame of user code on the way (the exception has no traceback):
+# a call with the wrong number of arguments, a C-implemented callable that raises on a state object.
+WHOLE_KINDS = ["arity0", "arity2", "c-itemgetter", "c-sqrt"]
+
+
+def frameless(kind):
+    if kind == "arity0":
+        return lambda: True
+    if kind == "arity2":
+        return lambda a, b: True
+    if kind == "c-itemgetter":
+        return operator.itemgetter(99)
+    return math.sqrt
+
+
+def goal_without_frames(env, kind):
+    cb = frameless(kind)
+
+    class G:
+        # a plain function stored on the class would be bound (one argument too many for arity2 = fine, that
+        # also fails); C callables and staticmethods are called with the state alone
+        is_satisfied = staticmethod(cb)
+
+        def sample_goal(self):
+            return env.sample_goal()
+
+    return G()
+
+
+def run_scenario(sc, fault=None, as_false=False, with_distance=False, whole=None):
     env = (EnvD if with_distance else Env)(sc, fault, as_false)
     late = "/frac-late" in sc["id"]
     space = mk_space(sc["space"], defer_frac=late)
@@ -256,7 +288,9 @@ def run_scenario(sc, fault=None, as_false=False, with_distance=False):
         # the same space object served an earlier problem definition before its resolution was changed
         FROM[sc["variant"]](space, start, env)
         space.set_longest_valid_segment_fraction(sc["space"]["frac"])
-    pd = FROM[sc["variant"]](space, start, env)
+    goal_obj = goal_without_frames(env, whole[1]) if whole and whole[0] == "goal" else env
+    valid_cb = frameless(whole[1]) if whole and whole[0] == "valid" else None
+    pd = FROM[sc["variant"]](space, start, goal_obj)
     cfg = PlannerConfig(seed=sc["seed"])
     pl = sc["planner"]
     try:
@@ -276,9 +310,9 @@ def run_scenario(sc, fault=None, as_false=False, with_distance=False):
     for op in sc.get("history") or (["setup", "construct", "solve"] if pl == "PRM" else ["setup", "solve"]):
         try:
             if op == "setup":
-                p.setup(env.valid)
+                p.setup(valid_cb or env.valid)
             elif op == "setup2":
-                p.setup(env.valid2)
+                p.setup(valid_cb or env.valid2)
             elif op == "construct":
                 if pl == "PRM":
                     p.construct_roadmap()
@@ -535,6 +569,27 @@ def c20(inp, rep):
         for k in range(3 if (light and is_hist) else kmax):
             placements.append(("valid", {"place": "kth", "k": k}))
             placements.append(("goal", {"place": "kth", "k": k}))
+        # callbacks that fail on EVERY call and without a Python frame (wrong arity, C callables): the reference is
+        # a callback returning False everywhere
+        everywhere = {"k": "sq", "idx": list(range(len(x0))), "c": x0, "r2": 1e300}
+        for target in ("valid", "goal"):
+            try:
+                _, ref_calls, _ = run_scenario(sc, dict(place="region", region=everywhere, target=target, kind="raise"), as_false=True)
+            except Exception as e:  # noqa: BLE001
+                rep.errors.append("reference run (False everywhere) failed for %s: %r" % (sc["id"], e))
+                continue
+            for kind in WHOLE_KINDS:
+                rep.count("fault_runs")
+                rep.count("frameless_callback_runs")
+                det = {"scenario": {k: sc[k] for k in ("id", "variant", "planner", "seed")}, "fault": {"target": target, "kind": kind, "placement": "every call"}}
+                try:
+                    _, calls, _ = run_scenario(sc, None, whole=(target, kind))
+                except BaseException as e:  # noqa: BLE001  (a Rust panic arrives as PanicException, a BaseException)
+                    rep.violate("%s|%s|exception-escaped|%s" % (sc["planner"], target, type(e).__name__), "a %s callback failing without a Python frame (%s) made the planner call raise %s instead of treating the state as False" % (target, kind, type(e).__name__), det)
+                    continue
+                rep.distinct.add(hash((sc["id"], target, kind, "whole")))
+                if [c[0] for c in calls] != [c[0] for c in ref_calls] or [c[1] for c in calls] != [c[1] for c in ref_calls]:
+                    rep.violate("%s|%s-callback|%s|differs-from-returning-False" % (sc["planner"], target, kind), "a %s callback that fails on every call (%s) does not behave like one returning False (results %r vs %r)" % (target, kind, [c[0] for c in calls], [c[0] for c in ref_calls]), det)
         for target, place in placements:
             # goal faults are also run against a goal object that implements the optional distance_goal
             wd = [False, True] if target == "goal" and not (light and (is_hist or place.get("k", 0) >= 3)) else [False]
